@@ -1,8 +1,10 @@
+mod c31a;
 mod c47;
 mod types;
 
 fn main() {
     vf_kit::dispatch! {
         "c47" => c47::C47,
+        "c31a" => c31a::C31a,
     }
 }
